@@ -53,6 +53,7 @@ inductive Action where
   | select | deselect | toggle | toggleUp | toggleDown | toggleIn | toggleOut
   | selectAll | deselectAll | toggleAll | clearSelection
   | toggleSort | exclude | excludeMulti | reload
+  | changeMulti (n : Option Nat)      -- change-multi(N) / change-multi: see `changeMulti` (the limit is a session parameter)
   | toggleInput | showInput | hideInput
   | accept | acceptNonEmpty | acceptOrPrintQuery | abort | printQuery
   | print (s : Str)
@@ -245,6 +246,7 @@ def act (op : Opts) (s : TS) : Action → TS
   -- reload (of the same input): the new list is a new generation of items — the selection and the
   -- exclusions are dropped, the query and the cursor position stay
   | .reload => { s with selected := [], excluded := [] }
+  | .changeMulti _ => s       -- the limit lives in `Opts`: `stepM` threads it
   | .exclude =>
     match currentItem s with
     | some i => { deselectItem s i with excluded := i :: s.excluded }
@@ -319,6 +321,21 @@ def afterActions (op : Opts) (before : TS) (s : TS) : TS :=
 /-- One POSTed action list. -/
 def step (op : Opts) (s : TS) (as : List Action) : TS :=
   afterActions op s (as.foldl (actStep op) s)
+
+/-- `change-multi(N)` (no argument: unlimited): the limit changes; the selection is dropped when
+    multi-select was on and the limit is a different one. -/
+def unlimitedMulti : Nat := 2147483647
+
+def changeMulti (op : Opts) (s : TS) (n : Option Nat) : Opts × TS :=
+  let m := n.getD unlimitedMulti
+  ({ op with multi := m }, if op.multi > 0 ∧ m ≠ op.multi then { s with selected := [] } else s)
+
+/-- One POSTed action list when the list may change the --multi limit on its way. -/
+def stepM (op : Opts) (s : TS) (as : List Action) : Opts × TS :=
+  let r := as.foldl (fun (acc : Opts × TS) a => match a with
+    | .changeMulti n => if acc.2.outcome.isSome then acc else changeMulti acc.1 acc.2 n
+    | a => (acc.1, actStep acc.1 acc.2 a)) (op, s)
+  (r.1, afterActions r.1 s r.2)
 
 /-- What fzf prints and its exit status when the session ends (`Terminal.output`, exit codes):
     `--print-query` line, the `--expect` line, queued `print` texts, then the selection in
